@@ -5,6 +5,7 @@ import (
 	"encoding/xml"
 	"errors"
 	"fmt"
+	"net/http"
 
 	restful "github.com/emicklei/go-restful/v3"
 
@@ -30,11 +31,12 @@ type c15Call struct {
 }
 
 type c15Scen struct {
-	Calls  []c15Call `json:"calls"`
-	Accept string    `json:"accept"`
-	Pretty bool      `json:"pretty"`
-	Coding string    `json:"coding"` // "", gzip, deflate
-	ShortN int       `json:"short_write_accepts"`
+	Calls      []c15Call `json:"calls"`
+	Accept     string    `json:"accept"`
+	Pretty     bool      `json:"pretty"`
+	Coding     string    `json:"coding"` // "", gzip, deflate
+	ShortN     int       `json:"short_write_accepts"`
+	Middleware bool      `json:"http_middleware_between_filter_and_handler"`
 }
 
 var c15First = []string{"none", "WriteHeader", "WriteEntity", "WriteHeaderAndEntity", "WriteAsJson", "WriteAsXml", "WriteJson", "WriteHeaderAndJson", "WriteHeaderAndXml", "WriteError", "WriteErrorString", "WriteServiceError"}
@@ -65,6 +67,7 @@ func genC15(x *Ctx) *c15Scen {
 	sc.Pretty = tp.Bool()
 	sc.Coding = []string{"", "", "gzip", "deflate"}[tp.G(4)]
 	sc.ShortN = tp.G(64)
+	sc.Middleware = tp.Chance(350)
 	return sc
 }
 
@@ -97,6 +100,12 @@ func c15Exec(sc *c15Scen, mode, failAt int) *c15Obs {
 		chain.ProcessFilter(req, resp)
 		obs.status, obs.length = resp.StatusCode(), resp.ContentLength()
 	})
+	if sc.Middleware {
+		// the documented adapter for net/http middlewares; a pass-through one
+		c.Filter(restful.HttpMiddlewareHandlerToFilter(func(next http.Handler) http.Handler {
+			return http.HandlerFunc(func(rw http.ResponseWriter, r *http.Request) { next.ServeHTTP(rw, r) })
+		}))
+	}
 	ws := new(restful.WebService).Path("/b").Produces("application/json", "application/xml")
 	ws.Route(ws.GET("/k").To(func(req *restful.Request, resp *restful.Response) {
 		obs.ran = true
@@ -193,7 +202,7 @@ func runC15(x *Ctx) {
 	fired := 0
 	for _, v := range vs {
 		o := v.obs
-		what := fmt.Sprintf("calls %s accept=%q pretty=%v coding=%q fault=%s@write#%d", jsonStr(sc.Calls), sc.Accept, sc.Pretty, sc.Coding, []string{"none", "fail", "short", "once"}[v.mode], v.at)
+		what := fmt.Sprintf("calls %s accept=%q pretty=%v coding=%q middleware=%v fault=%s@write#%d", jsonStr(sc.Calls), sc.Accept, sc.Pretty, sc.Coding, sc.Middleware, []string{"none", "fail", "short", "once"}[v.mode], v.at)
 		if o.escaped != nil {
 			x.Violate("panic", "%s: panic %v", what, o.escaped)
 			continue
